@@ -575,6 +575,7 @@ func (d *Pegnetd) SyncBlock(ctx context.Context, tx *sql.Tx, height uint32) erro
 		err := d.DevelopersPayouts(tx, fLog, height, dblock.Timestamp, developersList)
 		if err != nil {
 			fLog.WithFields(log.Fields{"section": "devReward", "reason": "developer reward"}).Tracef("something wrong happend during dev payout execution")
+			return err
 		}
 	}
 
